@@ -370,7 +370,10 @@ def dump_graph(dag, spec):
     for u, v, a in dag.graph.edges(data=True):
         edges.append({'u': idx[u], 'v': idx[v], 'kwarg': a.get('kwarg_name'),
                       'is_switch': bool(a.get('is_switch')), 'case': a.get('case_branch')})
-    edges.sort(key=lambda e: (e['u'], e['v']))
+    # the in-edges of every node in the order of `graph.predecessors(node)` (the order in which the engine reads the
+    # dependencies of a node: which of two failed dependencies a consumer fails with, which of two equal labels wins)
+    ppos = {(idx[u], idx[v]): k for v in dag.graph.nodes for k, u in enumerate(dag.graph.predecessors(v))}
+    edges.sort(key=lambda e: (e['v'], ppos[(e['u'], e['v'])]))
     return {'nodes': nodes, 'edges': edges, 'input': idx[dag.input_node], 'output': idx[dag.output_node],
             'order': [idx[nid] for nid in dag.graph.nodes], 'n': k}, idx
 
